@@ -288,3 +288,252 @@ contract(
     decorators_ok=RUN_IN_TASK,
     note='@run_in_task ignored: the coroutine body is what is verified',
 )
+
+
+# ===========================================================================
+# range / list operations: any number of attributes (AnyListOf: every attribute met is an arbitrary one)
+# ===========================================================================
+from pyvc.ext_c11 import AnyListOf  # noqa: E402
+
+# the last refusal seen by the handler (set by the callee view of read_value when it raises)
+REF_GHOST = dict(ref_code=Int, ref_handle=Int, ref_perm=Int)
+V_READ_R = T_READ_VALUE + '@C11callee-r'
+contract(
+    T_READ_VALUE,
+    key=V_READ_R,
+    params=dict(self=ATTR_H, bearer=BEARER),
+    ghost=dict(GATE_COUNTERS, bid=Int, **REF_GHOST),
+    requires=lambda bearer, ghost: [bearer.g_id == ghost.bid],
+    returns=Bytes,
+    ensures=lambda self, bearer, old, ghost: [
+        readable_for(self, bearer),
+        ghost.nok == old.ghost.nok + 1 and ghost.nref == old.ghost.nref,
+        ghost.ref_code == old.ghost.ref_code and ghost.ref_handle == old.ghost.ref_handle and ghost.ref_perm == old.ghost.ref_perm,
+    ],
+    raises={
+        att.ATT_Error: lambda self, bearer, exc, old, ghost: [
+            exc.att_handle == self.handle,
+            implies(not readable_for(self, bearer), read_refusal_code_ok(exc.error_code, self.permissions, encrypted(bearer), authenticated(bearer))),
+            0 <= exc.error_code and exc.error_code <= 0xFF,
+            ghost.nref == old.ghost.nref + 1 and ghost.nok == old.ghost.nok,
+            ghost.ref_code == exc.error_code and ghost.ref_handle == self.handle and ghost.ref_perm == self.permissions,
+        ]
+    },
+    modifies=['ghost.nok', 'ghost.nref', 'ghost.ref_code', 'ghost.ref_handle', 'ghost.ref_perm'],
+    exc_fields=EXC_FIELDS,
+)
+
+# response PDUs that parse their own payload back into a list (display only): not verified, see ENVIRONMENT
+SKIP_POST_INIT = []
+for _cls in ('ATT_Find_By_Type_Value_Response', 'ATT_Read_By_Type_Response', 'ATT_Read_By_Group_Type_Response'):
+    _k = f'bumble.att:{_cls}.__post_init__'
+    contract(_k, key=_k + '@C11skip', params=dict(self=Any), modifies=[])
+    SKIP_POST_INIT.append(_k + '@C11skip')
+
+
+def srv_get_any(ghost, handle):
+    """Server.get_attribute for an arbitrary database: any handle may or may not name an attribute, which one is
+    arbitrary (fresh result of the declared type); the handle asked for is remembered"""
+    ghost.req_handle = handle
+    return None
+
+
+model(
+    'bumble.gatt_server:Server#any',
+    fields=dict(attributes=AnyListOf(ATTR_H)),
+    methods={
+        # any handle may or may not name an attribute; which one is arbitrary
+        'get_attribute': Callback('get_attribute', effect=srv_get_any, returns=Opt(ATTR_H)),
+        'send_response': Callback('send_response', effect=srv_send_response),
+    },
+)
+SERVER_ANY = Inst('bumble.gatt_server:Server#any')
+model('bumble.att:ATT_Read_By_Type_Request#c11', fields=dict(starting_handle=HANDLE, ending_handle=HANDLE, attribute_type=UUID_T))
+model('bumble.att:ATT_Read_By_Group_Type_Request#c11', fields=dict(starting_handle=HANDLE, ending_handle=HANDLE, attribute_group_type=UUID_T))
+model('bumble.att:ATT_Find_By_Type_Value_Request#c11', fields=dict(starting_handle=HANDLE, ending_handle=HANDLE, attribute_type=UUID_T, attribute_value=Bytes))
+model('bumble.att:ATT_Read_Multiple_Request#c11', fields=dict(set_of_handles=ListOf(Int)))
+
+ANY_GHOST = dict(GATE_COUNTERS, bid=Int, req_handle=Int, **REF_GHOST, **RESP_GHOST)
+ANY_MOD = RESP_MOD + GATE_MOD + ['ghost.ref_code', 'ghost.ref_handle', 'ghost.ref_perm', 'ghost.req_handle']
+ANY_INLINE = ERR_INLINE + ['UUID.__eq__']
+
+
+def any_pre(bearer, ghost):
+    return [ghost.bid == bearer.g_id]
+
+
+def refusal_reported(ghost, request, bearer, handle):
+    """the error response carries what the gate raised for the attribute that was refused"""
+    return (
+        ghost.rop == ATT_ERROR_RSP
+        and ghost.rerr_op == request.op_code
+        and ghost.rerr == ghost.ref_code
+        and ghost.rerr_handle == handle
+        and (may_read(ghost.ref_perm, encrypted(bearer), authenticated(bearer)) or read_refusal_code_ok(ghost.rerr, ghost.ref_perm, encrypted(bearer), authenticated(bearer)))
+    )
+
+
+def range_read_post(data_opcode):
+    """Vol 3 Part F 3.4.4.1 / 3.4.4.9 + statement"""
+
+    def post(self, bearer, request, old, ghost):
+        return [
+            ghost.nresp == old.ghost.nresp + 1,
+            # values are in the response only if at least one permitted read took place (and every value a handler
+            # can hold comes from a permitted read: callee view)
+            implies(ghost.rop == data_opcode, ghost.nok > old.ghost.nok),
+            # the first matching attribute is refused: answered with the error the gate raised, nothing disclosed
+            implies(ghost.nok == old.ghost.nok and ghost.nref != old.ghost.nref, refusal_reported(ghost, request, bearer, ghost.ref_handle)),
+            # a permission error is only reported when a refusal happened and nothing was disclosed
+            implies(ghost.rop == ATT_ERROR_RSP and is_permission_error(ghost.rerr), ghost.nok == old.ghost.nok and ghost.nref == old.ghost.nref + 1),
+            # the walk stops at the first refusal
+            ghost.nref <= old.ghost.nref + 1,
+            ghost.wok == old.ghost.wok,
+        ]
+
+    return post
+
+
+RANGE_READ_NAMES = ['one-response', 'data-only-after-a-permitted-read', 'first-refusal-answered', 'permission-error-means-refused-undisclosed', 'stops-at-first-refusal', 'nothing-written']
+
+
+def rbt_inv(request, attributes, response, old, ghost):
+    return [
+        ghost.nresp == old.ghost.nresp,
+        ghost.nref == old.ghost.nref and ghost.wok == old.ghost.wok,
+        len(attributes) == ghost.nok - old.ghost.nok,
+        response.op_code == ATT_ERROR_RSP and response.error_code == ERR_ATTRIBUTE_NOT_FOUND,
+    ]
+
+
+contract(
+    'bumble.gatt_server:Server.on_att_read_by_type_request',
+    key='bumble.gatt_server:Server.on_att_read_by_type_request@C11',
+    prop='C11',
+    params=dict(self=SERVER_ANY, bearer=BEARER, request=Inst('bumble.att:ATT_Read_By_Type_Request#c11')),
+    ghost=ANY_GHOST,
+    requires=any_pre,
+    ensures=range_read_post(ATT_READ_BY_TYPE_RSP),
+    ensures_names=RANGE_READ_NAMES,
+    invariants={0: rbt_inv},
+    loop_locals={0: dict(attributes=ListOf(TupleOf(Int, Bytes)), entry_size=Int)},
+    modifies=ANY_MOD,
+    uses=[V_READ_R] + SKIP_POST_INIT,
+    inline=ANY_INLINE,
+    decorators_ok=RUN_IN_TASK,
+    note='@run_in_task ignored: the coroutine body is what is verified; any number of attributes',
+)
+
+
+def rbgt_inv(request, attributes, old, ghost):
+    return [
+        ghost.nresp == old.ghost.nresp,
+        ghost.nref == old.ghost.nref and ghost.wok == old.ghost.wok,
+        len(attributes) == ghost.nok - old.ghost.nok,
+    ]
+
+
+contract(
+    'bumble.gatt_server:Server.on_att_read_by_group_type_request',
+    key='bumble.gatt_server:Server.on_att_read_by_group_type_request@C11',
+    prop='C11',
+    params=dict(self=SERVER_ANY, bearer=BEARER, request=Inst('bumble.att:ATT_Read_By_Group_Type_Request#c11')),
+    ghost=ANY_GHOST,
+    requires=any_pre,
+    ensures=range_read_post(ATT_READ_BY_GROUP_TYPE_RSP),
+    ensures_names=RANGE_READ_NAMES,
+    invariants={0: rbgt_inv},
+    loop_locals={0: dict(attributes=ListOf(TupleOf(Int, Int, Bytes)))},
+    modifies=ANY_MOD,
+    uses=[V_READ_R] + SKIP_POST_INIT,
+    inline=ANY_INLINE,
+    decorators_ok=RUN_IN_TASK,
+    note='@run_in_task ignored: the coroutine body is what is verified; any number of attributes',
+)
+
+
+def fbtv_post(self, bearer, request, old, ghost):
+    """Vol 3 Part F 3.4.3.3: only attributes the client may read are matched; the only error is Attribute Not Found
+    (a permission error would disclose that a protected attribute of that type exists in the range)"""
+    return [
+        ghost.nresp == old.ghost.nresp + 1,
+        implies(ghost.rop == ATT_FIND_BY_TYPE_VALUE_RSP, ghost.nok > old.ghost.nok),
+        implies(ghost.rop == ATT_ERROR_RSP, ghost.rerr == ERR_ATTRIBUTE_NOT_FOUND and ghost.rerr_op == request.op_code),
+        ghost.rop == ATT_ERROR_RSP or ghost.rop == ATT_FIND_BY_TYPE_VALUE_RSP,
+        ghost.wok == old.ghost.wok,
+    ]
+
+
+def fbtv_inv0(attributes, old, ghost):
+    return [ghost.nresp == old.ghost.nresp, ghost.wok == old.ghost.wok, len(attributes) <= ghost.nok - old.ghost.nok]
+
+
+def fbtv_inv1(attributes, old, ghost):
+    return [ghost.nresp == old.ghost.nresp, ghost.wok == old.ghost.wok, len(attributes) > 0, len(attributes) <= ghost.nok - old.ghost.nok]
+
+
+contract(
+    'bumble.gatt_server:Server.on_att_find_by_type_value_request',
+    key='bumble.gatt_server:Server.on_att_find_by_type_value_request@C11',
+    prop='C11',
+    params=dict(self=SERVER_ANY, bearer=BEARER, request=Inst('bumble.att:ATT_Find_By_Type_Value_Request#c11')),
+    ghost=ANY_GHOST,
+    requires=any_pre,
+    ensures=fbtv_post,
+    ensures_names=['one-response', 'match-only-after-a-permitted-read', 'only-not-found-errors', 'response-kind', 'nothing-written'],
+    invariants={0: fbtv_inv0, 1: fbtv_inv1},
+    loop_locals={0: dict(attributes=AnyListOf(ATTR_H)), 1: dict(handles_information_list=ListOf(Bytes))},
+    modifies=ANY_MOD,
+    uses=[V_READ_R] + SKIP_POST_INIT,
+    inline=ANY_INLINE,
+    decorators_ok=RUN_IN_TASK,
+    note='@run_in_task ignored: the coroutine body is what is verified; any number of attributes',
+)
+
+
+def rm_post(data_opcode):
+    """Vol 3 Part F 3.4.4.7 / 3.4.4.11: if any of the reads is not permitted the answer is that error"""
+
+    def post(self, bearer, request, old, ghost):
+        return [
+            ghost.nresp == old.ghost.nresp + 1,
+            implies(ghost.rop == data_opcode, ghost.nref == old.ghost.nref),
+            # the handle in error is the handle of the request's list that was being read
+            implies(ghost.nref != old.ghost.nref, refusal_reported(ghost, request, bearer, ghost.req_handle)),
+            implies(ghost.rop == ATT_ERROR_RSP and is_permission_error(ghost.rerr), ghost.nref == old.ghost.nref + 1),
+            ghost.nref <= old.ghost.nref + 1,
+            ghost.wok == old.ghost.wok,
+        ]
+
+    return post
+
+
+RM_NAMES = ['one-response', 'values-only-if-no-refusal', 'refusal-answered', 'permission-error-means-refused', 'stops-at-first-refusal', 'nothing-written']
+
+
+def rm_inv(_i, old, ghost):
+    return [_i >= 0, ghost.nresp == old.ghost.nresp, ghost.nref == old.ghost.nref and ghost.wok == old.ghost.wok]
+
+
+ATT_READ_MULTIPLE_VARIABLE_RSP = 0x21  # Vol 3 Part F 3.4.8
+for _name, _op, _ll in (
+    ('on_att_read_multiple_request', ATT_READ_MULTIPLE_RSP, dict(values=ListOf(Bytes))),
+    ('on_att_read_multiple_variable_request', ATT_READ_MULTIPLE_VARIABLE_RSP, dict(length_value_tuple_list=ListOf(TupleOf(Int, Bytes)))),
+):
+    contract(
+        f'bumble.gatt_server:Server.{_name}',
+        key=f'bumble.gatt_server:Server.{_name}@C11',
+        prop='C11',
+        params=dict(self=SERVER_ANY, bearer=BEARER, request=Inst('bumble.att:ATT_Read_Multiple_Request#c11')),
+        ghost=ANY_GHOST,
+        requires=any_pre,
+        ensures=rm_post(_op),
+        ensures_names=RM_NAMES,
+        invariants={0: rm_inv},
+        loop_locals={0: _ll},
+        modifies=ANY_MOD,
+        uses=[V_READ_R],
+        inline=ANY_INLINE,
+        decorators_ok=RUN_IN_TASK,
+        note='@run_in_task ignored: the coroutine body is what is verified; any list of handles',
+    )
